@@ -278,14 +278,29 @@ Proof.
 Qed.
 
 (* ---- what the program does ---- *)
+Lemma in_firstn {A} (a : A) n l : In a (firstn n l) -> In a l.
+Proof.
+  revert l. induction n as [|n IH]; intros l H; simpl in H; [destruct H|].
+  destruct l as [|x t]; [destruct H|]. destruct H as [->|H]; [now left|right; auto].
+Qed.
+
+(* a record that a (possibly interrupted) pruning run removed was selected for deletion *)
+Lemma prune_prefix_missing h m n x :
+  In x h -> ~ In x (remove_all (firstn n (pruned h m)) h) -> In (rev x) (pruned h m).
+Proof.
+  intros Hx Hnot. destruct (in_dec Nat.eq_dec (rev x) (firstn n (pruned h m))) as [Hin|Hout].
+  - eapply in_firstn; eauto.
+  - exfalso. apply Hnot. apply in_remove_all_iff. auto.
+Qed.
+
 Section Prune.
   Variable K : Type.
   Variable kh : forall e : eff, K -> K * resp e * list kev.
   Variable dresp : forall e : eff, resp e.
   Variable f : sfaults.
+  Variable F : eff -> Prop.
   Hypothesis Hw : wfail f = None.
-  Notation wpA := (wpA kh dresp f).
-  Notation G := (fun (_ : list release) (_ : list nat) => True).
+  Notation wpA := (wpA kh dresp f F).
 
   Lemma has_rev_remove_other v w l : w <> v -> has_rev w (remove_rev v l) = has_rev w l.
   Proof.
@@ -296,17 +311,20 @@ Section Prune.
       rewrite has_rev_false in E. auto.
   Qed.
 
+  (* if the process dies in the loop, a prefix of the selected revisions is gone *)
   Lemma delete_all_spec vs : forall l cs,
     NoDup vs -> (forall v, In v vs -> has_rev v l = true) ->
-    wpA G (delete_all vs) (fun l' c r => l' = remove_all vs l /\ c = cs /\ fst r = 0) l cs.
+    wpA (fun l' _ => exists n, l' = remove_all (firstn n vs) l) (delete_all vs)
+        (fun l' c r => l' = remove_all vs l /\ c = cs /\ fst r = 0) l cs.
   Proof.
     induction vs as [|v t IH]; intros l cs Hn Hin; cbn [delete_all]; wp_norm.
     - apply wp_ret. auto.
     - inversion Hn as [|? ? Hnot Ht]; subst.
-      apply wp_delete; [exact I|intros X; congruence|].
+      apply wp_delete; [exists 0; reflexivity|intros X _; congruence|].
       rewrite (Hin v (or_introl eq_refl)).
-      eapply wp_bind_rel; [apply (IH (remove_rev v l) cs Ht)|auto|]; cbv beta.
+      eapply wp_bind_rel; [apply (IH (remove_rev v l) cs Ht)| |]; cbv beta.
       + intros w Hw'. rewrite has_rev_remove_other; [apply Hin; now right|]. intros ->. contradiction.
+      + intros l1 _ [n ->]. exists (S n). reflexivity.
       + intros l1 c1 r [-> [-> Hr]]. apply wp_ret. simpl. auto.
   Qed.
 
@@ -315,23 +333,30 @@ Section Prune.
     | Some d => Some (rev d) | None => None end = deployed_rev h.
   Proof. reflexivity. Qed.
 
+  Definition prune_result (r : release) (m : nat) (h : list release) (cs : list nat)
+             (l' : list release) (c : list nat) (e : serr) : Prop :=
+    let kept := remove_all (pruned h m) h in
+    if has_rev (rev r) kept then e = SExists /\ l' = kept /\ c = cs
+    else e = SOk /\ l' = (kept ++ [r])%list /\ c = (cs ++ [rev r])%list.
+
   Lemma storage_create_prune r m h cs :
     NoDup (revs h) ->
-    wpA G (storage_create r (S m))
-        (fun l' c e =>
-           let kept := remove_all (pruned h m) h in
-           if has_rev (rev r) kept then e = SExists /\ l' = kept /\ c = cs
-           else e = SOk /\ l' = (kept ++ [r])%list /\ c = (cs ++ [rev r])%list) h cs.
+    wpA (fun l' _ => exists n, l' = remove_all (firstn n (pruned h m)) h)
+        (storage_create r (S m)) (prune_result r m h cs) h cs.
   Proof.
-    intros Hn. cbn [storage_create].
+    intros Hn. cbn [storage_create]. unfold prune_result.
     assert (Hcreate : forall l, l = remove_all (pruned h m) h ->
-              wpA G (perform (SCreate r))
+              wpA (fun l' _ => exists n, l' = remove_all (firstn n (pruned h m)) h)
+                  (perform (SCreate r))
                   (fun l' c e =>
                      let kept := remove_all (pruned h m) h in
                      if has_rev (rev r) kept then e = SExists /\ l' = kept /\ c = cs
                      else e = SOk /\ l' = (kept ++ [r])%list /\ c = (cs ++ [rev r])%list) l cs).
-    { intros l ->. unfold perform. apply wp_create; [exact I|intros X; congruence| |];
-        intros E; apply wp_ret; cbv zeta; rewrite E; auto. }
+    { intros l ->. unfold perform. apply wp_create.
+      - exists (List.length (pruned h m)). now rewrite firstn_all.
+      - intros X _; congruence.
+      - intros E. apply wp_ret. cbv zeta. rewrite E. auto.
+      - intros E. apply wp_ret. cbv zeta. rewrite E. auto. }
     unfold remove_least_recent. wp_norm. apply wp_history.
     destruct h as [|x t] eqn:Hh.
     { wp_norm. apply Hcreate. reflexivity. }
@@ -370,6 +395,27 @@ Section Prune.
     apply IH; auto.
   Qed.
 
+  (* any crash point: dead = a prefix of the selected revisions is gone and nothing else changed
+     (the new record is missing); alive = the full result *)
+  Lemma storage_create_prune_any_run r m (s : rstate K) :
+    dead s = false -> NoDup (revs (led s)) ->
+    let h := led s in
+    let kept := remove_all (pruned h m) h in
+    let s' := fst (run K kh dresp f (storage_create r (S m)) s) in
+    let e := snd (run K kh dresp f (storage_create r (S m)) s) in
+    if dead s' then exists n, led s' = remove_all (firstn n (pruned h m)) h
+    else if has_rev (rev r) kept then e = SExists /\ led s' = kept
+    else e = SOk /\ led s' = (kept ++ [r])%list.
+  Proof.
+    intros Hd Hn. cbv zeta.
+    destruct (storage_create_prune r m (led s) (creates (tr s)) Hn s eq_refl eq_refl Hd
+                (fails_only_none K kh dresp f F _ Hw s)) as [H1 H2].
+    destruct (dead (fst (run K kh dresp f (storage_create r (S m)) s))).
+    - apply H1. reflexivity.
+    - specialize (H2 eq_refl). unfold prune_result in H2. cbv zeta in H2.
+      destruct (has_rev (rev r) (remove_all (pruned (led s) m) (led s))); tauto.
+  Qed.
+
   Lemma storage_create_prune_run r m (s : rstate K) :
     crash f = None -> dead s = false -> NoDup (revs (led s)) ->
     let kept := remove_all (pruned (led s) m) (led s) in
@@ -381,8 +427,37 @@ Section Prune.
   Proof.
     intros Hc Hd Hn. cbv zeta.
     pose proof (alive_run (storage_create r (S m)) s Hc Hd) as Ha.
-    destruct (storage_create_prune r m (led s) (creates (tr s)) Hn s eq_refl eq_refl Hd) as [_ H].
-    specialize (H Ha). cbv zeta in H. split; auto.
-    destruct (has_rev (rev r) (remove_all (pruned (led s) m) (led s))); tauto.
+    pose proof (storage_create_prune_any_run r m s Hd Hn) as H. cbv zeta in H.
+    rewrite Ha in H. split; auto.
   Qed.
 End Prune.
+
+(* the statements without the (irrelevant, since wfail = None) failable-write class *)
+Lemma prune_run_thm :
+  forall (K : Type) (kh : forall e : eff, K -> K * resp e * list kev) (dresp : forall e, resp e)
+         (f : sfaults),
+    wfail f = None ->
+    forall (r : release) (m : nat) (s : rstate K),
+    crash f = None -> dead s = false -> NoDup (revs (led s)) ->
+    let kept := remove_all (pruned (led s) m) (led s) in
+    let s' := fst (run K kh dresp f (storage_create r (S m)) s) in
+    let e := snd (run K kh dresp f (storage_create r (S m)) s) in
+    dead s' = false /\
+    if has_rev (rev r) kept then e = SExists /\ led s' = kept
+    else e = SOk /\ led s' = (kept ++ [r])%list.
+Proof. intros K kh dresp f Hw. exact (storage_create_prune_run K kh dresp f (fun _ => True) Hw). Qed.
+
+Lemma prune_crash_thm :
+  forall (K : Type) (kh : forall e : eff, K -> K * resp e * list kev) (dresp : forall e, resp e)
+         (f : sfaults),
+    wfail f = None ->
+    forall (r : release) (m : nat) (s : rstate K),
+    dead s = false -> NoDup (revs (led s)) ->
+    let h := led s in
+    let kept := remove_all (pruned h m) h in
+    let s' := fst (run K kh dresp f (storage_create r (S m)) s) in
+    let e := snd (run K kh dresp f (storage_create r (S m)) s) in
+    if dead s' then exists n, led s' = remove_all (firstn n (pruned h m)) h
+    else if has_rev (rev r) kept then e = SExists /\ led s' = kept
+    else e = SOk /\ led s' = (kept ++ [r])%list.
+Proof. intros K kh dresp f Hw. exact (storage_create_prune_any_run K kh dresp f (fun _ => True) Hw). Qed.
